@@ -1,7 +1,7 @@
 (* C20 — reported statistics match the dataset that is actually produced.
    Statements only; proofs live in theories/Stats/ReadableProofs.v. *)
 From Coq Require Import NArith ZArith List Lia.
-From NGS Require Import Val Ints Readable ReadableProofs ReadableBeyond.
+From NGS Require Import Val Ints Readable ReadableProofs ReadableBeyond TotalsProofs.
 Import ListNotations.
 Open Scope N_scope.
 
@@ -119,6 +119,38 @@ Theorem C20_size_bytes : forall sx sy sz it ch,
   stats_size_bytes (sx, sy, sz) it ch = Z.of_N (sx * sy * sz * it * ch).
 Proof. exact size_bytes. Qed.
 Print Assumptions C20_size_bytes.
+
+(* ---- "per scale and in total" ---- *)
+
+(* the Total line: as long as the true sums fit numpy's int64, the totals the
+   command accumulates are the sums of the rows it printed *)
+Theorem C20_totals_exact : forall rows,
+  Forall nonneg_row rows ->
+  (sumZ (map fst rows) < 2 ^ 63)%Z -> (sumZ (map snd rows) < 2 ^ 63)%Z ->
+  stats_totals rows = (sumZ (map fst rows), sumZ (map snd rows)).
+Proof. exact totals_exact. Qed.
+Print Assumptions C20_totals_exact.
+
+(* ... and for a whole info (any number of scales, any number of chunk layouts
+   per scale): the totals are the number of chunks of ALL the grids the
+   converters walk and the decoded byte size of all of them together *)
+Theorem C20_totals_of_info : forall scales it ch,
+  0 < it -> 0 < ch -> scales_ok it ch scales ->
+  (sumZ (map fst (true_rows scales it ch)) < 2 ^ 63)%Z ->
+  (sumZ (map snd (true_rows scales it ch)) < 2 ^ 63)%Z ->
+  stats_totals (info_rows scales it ch)
+  = (sumZ (map fst (true_rows scales it ch)), sumZ (map snd (true_rows scales it ch))).
+Proof. exact totals_of_info. Qed.
+Print Assumptions C20_totals_of_info.
+
+(* non-vacuity (two scales, one of them with two chunk layouts), and the reason
+   for the guard: int64 totals wrap *)
+Example C20_example_totals :
+  (let scales := [((5, 4, 3), [(2, 2, 2); (4, 4, 4)]); ((3, 2, 2), [(2, 2, 2)])] in
+   scales_ok 2 3 scales /\
+   stats_totals (info_rows scales 2 3) = (12 + 2 + 2, 360 + 360 + 72)%Z) /\
+  stats_totals [(2 ^ 62, 1); (2 ^ 62, 1)]%Z = (- 2 ^ 63, 2)%Z.
+Proof. split; [exact totals_example|exact totals_wrap]. Qed.
 
 Example C20_example_band :     (* the band that used to print "0.0 Mi" *)
   readable_count 10189 = [49; 48; 32; 107; 105] /\ 1000 <= 10189 < 2 ^ 60.
